@@ -46,7 +46,28 @@ func vfC24RandOpts(rng interface{ Intn(int) int }, base ExportOptions) ExportOpt
 	default:
 		o.Timeouts = &TimeoutConfig{ReadTimeout: time.Second, WriteTimeout: time.Second, LookupTimeout: time.Second, ReaddirTimeout: time.Second, CreateTimeout: time.Second, RemoveTimeout: time.Second, RenameTimeout: time.Second, HandleTimeout: time.Second, DefaultTimeout: 2 * time.Second}
 	}
-	o.Log = nil
+	// logging configurations, including ones no logger can be built from (the update call decides
+	// whether it accepts them; whatever it does, the next update and Close must still work)
+	switch rng.Intn(6) {
+	case 0:
+		o.Log = &LogConfig{Level: "info", Format: "xml", Output: "/dev/null"}
+	case 1:
+		o.Log = &LogConfig{Level: "debug", Format: "json", Output: "/dev/null"}
+	case 2:
+		o.Log = &LogConfig{Level: "info", Format: "text", Output: "/nonexistent-verif-dir/x.log"}
+	case 3:
+		o.Log = &LogConfig{Level: "warn", Format: "text", Output: "/dev/null"}
+	default:
+		o.Log = nil
+	}
+	// rate limiting switched on without a configuration of its own (the defaults are far above what
+	// the probes send), and off again
+	switch rng.Intn(4) {
+	case 0:
+		o.EnableRateLimiting, o.RateLimitConfig = true, nil
+	case 1:
+		o.EnableRateLimiting = false
+	}
 	// fields of the policy half, with values a validation might balk at (the probes stay servable)
 	o.MaxFileSize = []int64{0, 0, -1, 1 << 30, 1 << 40}[rng.Intn(5)]
 	switch rng.Intn(4) {
